@@ -45,6 +45,13 @@ func GroupByHelper(size int, underlying interface{}) (*groupBy, error) {
 
 	switch u.Kind() {
 	case reflect.Array, reflect.Slice:
+		if u.Kind() == reflect.Array && !u.CanAddr() {
+			// an array passed by value cannot be sliced; work on a copy
+			a := reflect.New(u.Type()).Elem()
+			a.Set(u)
+			u = a
+		}
+
 		if u.Len() == size {
 			return &groupBy{
 				group: []reflect.Value{u},
